@@ -605,6 +605,15 @@ def get_current_registers(commands: List[T_Cmd]) -> Set[str]:
         if not isinstance(command, ICmd):
             continue
         for op in command.operands:
-            if isinstance(op, Register):
-                current_registers.add(str(op))
+            # Registers can also occur as index of an array entry or as bounds
+            # of an array slice, these are in use as well.
+            if isinstance(op, ArrayEntry):
+                parts = [op.index]
+            elif isinstance(op, ArraySlice):
+                parts = [op.start, op.stop]
+            else:
+                parts = [op]
+            for part in parts:
+                if isinstance(part, Register):
+                    current_registers.add(str(part))
     return current_registers
